@@ -179,7 +179,16 @@ def run(ctx, out):
                     why = dest_correct(d, kind, pairs)
                     if why:
                         classes = {classify(ref, e, d, destroot) for (e, nth, en) in plan}
-                        cls = next((c for c in classes if c), None) if len(classes - {None}) == len(classes) else None
+                        if len(plan) == 1:
+                            cls = next((c for c in classes if c), None)
+                        else:
+                            # several faults: the discrepancy is a known finding only if a fault of that class is in the plan
+                            # AND the discrepancy is the one that class explains; anything else is reported
+                            cls = None
+                            if "finalise-fault" in classes and (why.startswith("mode of") or why.startswith("mtime of")):
+                                cls = "finalise-fault"
+                            elif "stat-probe-fault" in classes and ("missing" in why or "expected" in why or "backup" in why):
+                                cls = "stat-probe-fault"
                         out.violation("exit 0 after %s but %s" % (desc, why), rep, cls=cls)
                 # R1 vs the model's propagation table, single faults on operation-level calls
                 if len(plan) == 1:
